@@ -87,6 +87,30 @@ pub fn run(rep: &Report) {
                 one(u, &s, &cfg, false, l);
             }
         }
+        // the always-visible root claims are user claims too: a container-valued iat (and, for completeness,
+        // iss / exp given as containers) with the reserved name inside
+        for key in ["iat", "iss", "exp"] {
+            for name in names {
+                for (shape, container) in [("object", json!({ name: ["x"] })), ("array_of_object", json!([{ name: "x" }])), ("nested", json!({"k": [{"j": { name: 1 }}]}))] {
+                    let mut p = u.clone();
+                    p[key] = container;
+                    for s in [Strat::NoSd, Strat::Top, Strat::All] {
+                        for fmt in fmts {
+                            let _ = shape;
+                            one(&p, &s, &Cfg { fmt, ..Cfg::CHEAP }, true, l);
+                            l.nontrivial += 1;
+                        }
+                    }
+                }
+            }
+            // control: the same containers without a reserved name are issued (iat only: exp/iss containers are
+            // outside the claim domain and their acceptance is not asserted)
+            if key == "iat" {
+                let mut p = u.clone();
+                p[key] = json!({"k": [{"j": {"_sdx": 1}}]});
+                one(&p, &Strat::All, &Cfg::CHEAP, false, l);
+            }
+        }
         for at in object_paths(u) {
             for (vi, val) in vals.iter().enumerate() {
                 for first in [false, true] {
